@@ -451,6 +451,12 @@ def near(node, pattern, bind=None):
     if kind == "stmts" and isinstance(node, ast.stmt):
         node = [node]
     if kind == "expr" and isinstance(node, ast.stmt):
+        if isinstance(node, ast.If) and len(node.body) == 1 and not node.orelse and isinstance(node.body[0], ast.Expr):
+            inner = node.body[0]
+            if eq(inner, pattern, bind) is not None:
+                return f"the statement is now conditional on `{_txt(node.test)}`"
+            d = near(inner, pattern, bind)
+            return f"the statement is now conditional on `{_txt(node.test)}` and differs: {d}" if d else None
         if not isinstance(node, ast.Expr):
             return None
         node = node.value
@@ -463,6 +469,15 @@ def near(node, pattern, bind=None):
     if not isinstance(anchor, ast.AST):
         return None
     m = _matcher(anchor, bind)
+    # the required statement, but wrapped in a condition that the pattern does not have
+    if kind == "stmts" and len(p) == 1 and isinstance(node, list) and len(node) == 1 and isinstance(node[0], ast.If) and not isinstance(p[0], ast.If):
+        inner = node[0]
+        if len(inner.body) == 1 and not inner.orelse:
+            if m.block(p, inner.body):
+                return f"the statement is now conditional on `{_txt(inner.test)}`"
+            d = near(inner.body, pattern, bind)
+            if d:
+                return f"the statement is now conditional on `{_txt(inner.test)}` and differs: {d}"
     diffs = []
     got = _align(m, p, node, diffs)
     if not diffs or len(diffs) > NEAR_MAX_DIFFS or got < NEAR_RATIO * total:
